@@ -106,6 +106,20 @@ func apply(api string, args []cty.Value, x J) (cty.Value, error) {
 			return cty.MapVal(m), nil
 		}
 		return cty.ObjectVal(m), nil
+	case "WithSameMarks":
+		return args[0].WithSameMarks(args[1:]...), nil
+	case "WithMarks":
+		ms := []cty.ValueMarks{}
+		for _, a := range args[1:] {
+			ms = append(ms, a.Marks())
+		}
+		return args[0].WithMarks(ms...), nil
+	case "Unmark":
+		v, _ := args[0].Unmark()
+		return v, nil
+	case "UnmarkDeep":
+		v, _ := args[0].UnmarkDeep()
+		return v, nil
 	case "UnknownAsNull":
 		return cty.UnknownAsNull(args[0]), nil
 	}
